@@ -2,14 +2,18 @@
 from .chain import ChainEngine
 from .mhkernel import MHKernelEngine
 from .gibbs import GibbsEngine
+from .streams import StreamsEngine
 
 REGISTRY = {
     "chain": ChainEngine,
     "mhkernel": MHKernelEngine,
     "gibbs": GibbsEngine,
+    "streams": StreamsEngine,
 }
 
 PLAN = {
+    "C05": [{"engine": "streams", "level": "exploration",
+             "quick": {"runs": 2000, "budget_s": 240}, "thorough": {"runs": 100000, "budget_s": 3000}}],
     "C09": [{"engine": "gibbs", "level": "exploration",
              "quick": {"runs": 600, "budget_s": 240}, "thorough": {"runs": 30000, "budget_s": 3000}}],
     "C14": [{"engine": "chain", "level": "fault_enumeration",
